@@ -64,3 +64,14 @@ func VerifC11_HTLCReplicas() {
 	}
 	verifAssertKnown(same, "two replicas of the same chain agree on state and exported genesis whatever their host clocks say", "C11-htlc-default-prev-time", verifChoice("mode", 2) == 0)
 }
+
+// C11 (self-composition): the htlc begin-block (expiry sweep and period clocks) with one or two contracts
+// due, executed twice from the same state under symbolic map order and host clock: the same store, key for
+// key, and the same balances.
+func VerifC11_HTLCBeginBlock() {
+	verifExpect("same")
+	e, k, ctx, _, _ := c13HTLCState()
+	same := e.verifSameTwice(func() { BeginBlocker(ctx, k) })
+	verifCover("same")
+	verifAssert(same, "two executions of the same begin-block on the same state end in the same state")
+}
